@@ -89,7 +89,7 @@ def impl_near(run, rel=1e-7):
     return False
 
 
-def collect(rep, n_random, n_allseq, forced_kinds=(None,), archetypes=None, max_leaves=400, documented=True, budget_s=None):
+def collect(rep, n_random, n_allseq, forced_kinds=(None,), archetypes=None, max_leaves=400, documented=True, budget_s=None, extra_natural=()):
     """runs of the implementation + model comparison; failures of the correspondence are recorded on rep.
     returns the list of cases (those where the draw itself failed -- scipy, a C11 matter -- are dropped and counted)"""
     rnd = random.Random(rep.seed)
@@ -103,12 +103,14 @@ def collect(rep, n_random, n_allseq, forced_kinds=(None,), archetypes=None, max_
             for s in range(2):
                 inputs.append(("documented", text, rnd.randrange(1 << 30)))
     inputs += gi.cases(rnd.randrange(1 << 30), n_random, archetypes)
+    n_forced_cycle = len(inputs)
+    inputs += list(extra_natural)       # always run with the distribution's own draws
     import gbigsmiles
 
     for k, (arche, text, seed) in enumerate(inputs):
         if budget_s and time.time() - t0 > budget_s:
             break
-        kind = forced_kinds[k % len(forced_kinds)]
+        kind = forced_kinds[k % len(forced_kinds)] if k < n_forced_cycle else None
         forced = None
         if kind is not None:
             try:
@@ -383,6 +385,24 @@ def oracle_c05(v, run):
     total = sum(Descriptors.HeavyAtomMolWt(f) for f in v.frags)
     if abs(Descriptors.HeavyAtomMolWt(v.mol) - total) > 1e-6 or abs(float(v.g.weight) - total) > 1e-6:
         bad.append(f"heavy-atom mass {Descriptors.HeavyAtomMolWt(v.mol)} / weight {v.g.weight} != sum of residue masses {total}")
+    # the SMILES accessor is an observation point of its own: it must denote the same atoms (element, charge, isotope) and heavy-atom mass
+    try:
+        ps = Chem.SmilesParserParams()
+        ps.removeHs = False
+        ms = Chem.MolFromSmiles(v.g.smiles, ps)
+        key = lambda a: (a.GetAtomicNum(), a.GetFormalCharge(), a.GetIsotope())
+        from collections import Counter
+        if ms is None:
+            bad.append(f"MolGen.smiles {v.g.smiles!r} is not parsable")
+        else:
+            want = Counter(key(a) for a in v.mol.GetAtoms() if a.GetAtomicNum() != 1 or a.GetIsotope())
+            got = Counter(key(a) for a in ms.GetAtoms() if a.GetAtomicNum() != 1 or a.GetIsotope())
+            if want != got:
+                bad.append(f"MolGen.smiles {v.g.smiles[:60]!r} denotes other atoms than MolGen.mol: missing {dict(want - got)}, extra {dict(got - want)}")
+            elif abs(Descriptors.HeavyAtomMolWt(ms) - Descriptors.HeavyAtomMolWt(v.mol)) > 1e-6:
+                bad.append(f"MolGen.smiles has heavy-atom mass {Descriptors.HeavyAtomMolWt(ms)}, MolGen.mol {Descriptors.HeavyAtomMolWt(v.mol)}")
+    except Exception as e:  # noqa
+        bad.append(f"MolGen.smiles raised {type(e).__name__}: {str(e)[:60]}")
     return bad
 
 
